@@ -236,6 +236,23 @@ func main() {
 	maxAll, maxLen := ctx.Pick(4, 5), ctx.Pick(5, 6)
 	ctx.Jobs("bounded", len(bjs), func(j int) { bounded(bjs[j].cfg, bjs[j].first, maxAll, maxLen) })
 	ctx.Jobs("garbage", len(bjs), func(j int) { garbage(bjs[j].cfg, bjs[j].first) })
+	// every byte VALUE (not only one representative per class) in the first two
+	// positions, followed by nothing or by one byte of each class
+	ctx.Jobs("all-values", 16, func(j int) {
+		for b0 := j * 16; b0 < j*16+16; b0++ {
+			for b1 := 0; b1 < 256; b1++ {
+				ctx.Eval()
+				feed(cfgs[0], []byte{byte(b0), byte(b1)}, nil, 0)
+				for _, c := range ls.Classes {
+					ctx.Eval()
+					feed(cfgs[0], []byte{byte(b0), byte(b1), c}, nil, 0)
+					ctx.Eval()
+					feed(cfgs[0], []byte{byte(b0), c, byte(b1)}, []int{3}, 0)
+				}
+				ctx.Add("all_value_streams", int64(1+2*len(ls.Classes)))
+			}
+		}
+	})
 	ctx.Set("traces_validated_against_impl", ctx.GetInt("transitions"))
 	ctx.Set("max_depth", ctx.GetInt("max:depth"))
 	ctx.Set("byte_classes", len(ls.Classes))
